@@ -317,3 +317,55 @@ func restoreFromBytes(t Target, ccs interface{}) (interface{}, error) {
 	_, err := dec.(io.ReaderFrom).ReadFrom(bytes.NewReader(b.Bytes()))
 	return dec, err
 }
+
+// checkLookupLevels: static schedule invariant of a compiled system with lookup tables — every internal wire a lookup
+// instruction reads (its query inputs and the table entries it sees) is solved in a strictly earlier level than the
+// instruction itself, so that no interleaving of a level's workers can read an unsolved entry.
+func checkLookupLevels(ccs interface{}) string {
+	sys := sysOf(ccs)
+	levelOf := map[uint32]int{}
+	for l, ids := range sys.Levels {
+		for _, id := range ids {
+			levelOf[id] = l
+		}
+	}
+	for iid, pi := range sys.Instructions {
+		bp, ok := sys.Blueprints[pi.BlueprintID].(*constraint.BlueprintLookupHint[constraint.U64])
+		if !ok {
+			continue
+		}
+		inst := pi.Unpack(sys)
+		lvl, has := levelOf[uint32(iid)]
+		if !has {
+			return fmt.Sprintf("lookup instruction %d is in no level", iid)
+		}
+		nbEntries, nbInputs := int(inst.Calldata[1]), int(inst.Calldata[2])
+		var wires []uint32
+		off := 3
+		for i := 0; i < nbInputs; i++ {
+			n := int(inst.Calldata[off])
+			off++
+			for k := 0; k < n; k++ {
+				wires = append(wires, inst.Calldata[off+1])
+				off += 2
+			}
+		}
+		eo := 0
+		for e := 0; e < nbEntries && eo < len(bp.EntriesCalldata); e++ {
+			n := int(bp.EntriesCalldata[eo])
+			eo++
+			for k := 0; k < n; k++ {
+				wires = append(wires, bp.EntriesCalldata[eo+1])
+				eo += 2
+			}
+		}
+		for _, w := range wires {
+			if sys.HasWire(w) {
+				if wl := int(sys.GetWireLevel(w)); wl >= lvl {
+					return fmt.Sprintf("lookup instruction %d sits in level %d but reads wire %d, which is solved in level %d", iid, lvl, w, wl)
+				}
+			}
+		}
+	}
+	return ""
+}
